@@ -3,3 +3,5 @@ import StirVerif.C11.Model
 import StirVerif.C11.Lemmas
 import StirVerif.C11.Proofs
 import StirVerif.C11.Props
+import StirVerif.C06.Props
+import StirVerif.C01.Model
